@@ -832,6 +832,60 @@ func (in *Inst) scanContractMods(lp *Loop, con *Contract, c *ssa.CallCommon, cal
 			}
 		case modField:
 			baseRef := ""
+			if star, ok := mi.Expr.(*ast.StarExpr); ok {
+				// *p, p a pointer parameter: the cell (or every field of the struct) p points to
+				if id, isId := star.X.(*ast.Ident); isId && con.Sig == nil && callee != nil {
+					con.Sig = callee.Signature
+					_ = id
+				}
+				handled := false
+				if id, isId := star.X.(*ast.Ident); isId && con.Sig != nil {
+					var all []*types.Var
+					if con.Sig.Recv() != nil {
+						all = append(all, con.Sig.Recv())
+					}
+					for i := 0; i < con.Sig.Params().Len(); i++ {
+						all = append(all, con.Sig.Params().At(i))
+					}
+					var actuals []ssa.Value
+					if c.IsInvoke() {
+						actuals = append(actuals, c.Value)
+					}
+					actuals = append(actuals, c.Args...)
+					for i, pn := range con.Params {
+						if pn != id.Name || i >= len(all) {
+							continue
+						}
+						pt, ok := all[i].Type().Underlying().(*types.Pointer)
+						if !ok {
+							break
+						}
+						switch pt.Elem().Underlying().(type) {
+						case *types.Struct, *types.Array:
+						default:
+							comp := cellComp(pt.Elem())
+							e.regComp(comp, "(Array Int "+sortOfType(pt.Elem())+")")
+							ref := ""
+							if lp != nil && i < len(actuals) && in.definedOutside(lp, actuals[i]) {
+								if bv, ok := in.vals[actuals[i]]; ok && (bv.K == KRef || bv.K == KPtrField) && bv.T != "" {
+									ref = bv.T
+								}
+							}
+							if ref != "" && !m.comps[comp] {
+								m.fieldAt[comp] = append(m.fieldAt[comp], ref)
+							} else {
+								delete(m.fieldAt, comp)
+								m.comps[comp] = true
+							}
+							handled = true
+						}
+					}
+				}
+				if !handled {
+					m.all = true
+				}
+				continue
+			}
 			if sel, ok := mi.Expr.(*ast.SelectorExpr); ok {
 				ghost := false
 				// x.f where x is a parameter bound to a loop-invariant actual: only that object changes
@@ -1142,6 +1196,9 @@ func collectCallNames(instrs []ssa.Instruction, names map[string]bool, seen map[
 			c = &x.Call
 		case *ssa.Defer:
 			c = &x.Call
+		case *ssa.Go:
+			names["go"] = true
+			continue
 		case *ssa.MakeClosure:
 			fn := x.Fn.(*ssa.Function)
 			if !seen[fn] && depth < 7 {
